@@ -1,1 +1,70 @@
-From Verif Require Import Base Tie.
+(* C12 -- call terms evaluate like the Python expression they spell.
+   Specification (Spec/PyExpr.v): Python operator trees [py], Python's minimal-parenthesis printer
+   at token level [pytokens] (= ast.unparse; the harness re-validates the printer against CPython's
+   ast.parse / ast.unparse), [embed : py -> lazy].  formulae evaluates a lazy tree by applying the
+   same Python operator functions to the same leaves, so equality of TREES gives equality of values
+   in every environment; the C12 correspondence and oracle check values against Python's eval.
+   [no_hazard] excludes exactly the listed findings: a unary sign applied to a power (KF-C12-1), a
+   power whose right operand is a power (KF-C12-2), a keyword value that is a comparison (rejected
+   by formulae: allowed).  Chained comparisons are not Python binary trees at all (KF-C12-3). *)
+From Verif Require Import Base Tokens Scanner Parser Grammar Lazy Algebra PyExpr PyRoundtrip.
+From Verif Require Tie.
+
+(* every hazard-free tree, of any depth, calls and keyword arguments included, is read back as
+   the same tree *)
+Theorem C12_py_roundtrip :
+  forall e, no_hazard e = true -> wf e = true ->
+    exists ast, DExpr (pytokens e) ast /\ call_resolve ast = Ok (embed e).
+Proof. exact py_roundtrip. Qed.
+
+Theorem C12_py_roundtrip_parse :
+  forall e, no_hazard e = true -> wf e = true ->
+    exists ast, parse (pytokens e ++ [eof_tok]) = Ok ast /\ call_resolve ast = Ok (embed e).
+Proof. exact py_roundtrip_parse. Qed.
+
+(* inside a whole formula  y ~ I(<expr>)  as the scanner delivers it (implicit "1 +" included) *)
+Theorem C12_py_roundtrip_formula :
+  forall y tilde e,
+    tkind y = IDENTIFIER -> tkind tilde = TILDE -> no_hazard e = true -> wf e = true ->
+    exists ast,
+      parse (formula_tokens y tilde (pytokens e)) = Ok (formula_ast y tilde ast) /\
+      call_resolve ast = Ok (embed e) /\
+      describe (formula_ast y tilde ast) =
+      Ok (Mod (Some [CVar (NStr (lexeme y)) None]) [CI; CT [CCall (LzCall "I" [embed e] [])]] []).
+Proof. exact py_roundtrip_formula. Qed.
+
+(* {expr} is exactly I(expr) *)
+Theorem C12_brace_is_I :
+  forall lb rb lp rp ts e rest,
+    tkind lb = LEFT_BRACE -> tkind rb = RIGHT_BRACE -> tkind lp = LEFT_PAREN -> tkind rp = RIGHT_PAREN ->
+    DExpr ts e -> at_end rest = true ->
+    parse (lb :: ts ++ rb :: rest) = parse (I_token :: lp :: ts ++ rp :: rest).
+Proof. exact brace_is_I_parse_eq. Qed.
+
+(* the name is a function of the token list: textual variants of one call are one term;
+   leading whitespace is skipped by the scanner *)
+Theorem C12_name_whitespace_invariant :
+  forall s1 s2, scan_noint s1 = scan_noint s2 -> text_name s1 = text_name s2.
+Proof. exact name_ws_invariant. Qed.
+
+Theorem C12_scan_leading_whitespace :
+  forall b ws cs, forallb is_ws ws = true -> cs <> [] -> scan_chars b (ws ++ cs)%list = scan_chars b cs.
+Proof. exact scan_leading_ws. Qed.
+
+(* the listed findings, on the faithful model *)
+Example C12_refuted_unary_pow_ :
+  arg_tree "-x ** 2" = Ok (LzOp "**" [LzOp "-" [LzVar "x"]; LzVal (LInt 2) None]).
+Proof. exact C12_refuted_unary_pow. Qed.
+Example C12_refuted_pow_assoc_ :
+  arg_tree "2 ** x ** 2" =
+  Ok (LzOp "**" [LzOp "**" [LzVal (LInt 2) None; LzVar "x"]; LzVal (LInt 2) None]).
+Proof. exact C12_refuted_pow_assoc. Qed.
+Example C12_refuted_name_collision_ :
+  exists t1 t2, arg_tree "I((x + z) * 2)" = Ok t1 /\ arg_tree "I(x + z * 2)" = Ok t2 /\
+                lazy_eqb t1 t2 = false /\ t1 <> t2 /\
+                lazy_str t1 = "I(x + z * 2)"%string /\ lazy_str t2 = "I(x + z * 2)"%string.
+Proof. exact C12_refuted_name_collision. Qed.
+
+Print Assumptions C12_py_roundtrip.
+Print Assumptions C12_py_roundtrip_formula.
+Print Assumptions C12_brace_is_I.
